@@ -279,7 +279,7 @@ func c15Loop(c *Ctx, r *Report, rr, step *ssa.Function) {
 	for _, b := range rr.Blocks {
 		for _, in := range b.Instrs {
 			if cl, ok := in.(*ssa.Call); ok {
-				if cl.Common().StaticCallee() == step {
+				if calleeOf(cl) == step {
 					calls = append(calls, cl)
 				}
 				if sc := cl.Common().StaticCallee(); sc != nil && sc.String() == "(*bytes.Buffer).Write" {
